@@ -290,3 +290,20 @@ def _reduce_copyreg_state(obj):
 import copyreg
 copyreg.pickle(CopyregArgs, _reduce_copyreg_args)
 copyreg.pickle(CopyregState, _reduce_copyreg_state)
+
+
+class SlotsBase:
+    __slots__ = ('x',)
+
+
+class SlotsSubDict(SlotsBase):
+    """inherits a slot and has an instance dict of its own (no __slots__ in the subclass)"""
+
+
+class SlotsSubSlots(SlotsBase):
+    __slots__ = ('y',)
+
+
+class SlotsUnset:
+    """some slots are never assigned"""
+    __slots__ = ('x', 'y', 'z')
